@@ -23,4 +23,10 @@ CHECKS = {
         "text": "Same network families as C17; for each, complexes, linkage classes, weak reversibility, deficiency, per-class deficiencies and their bounds are recomputed from the definitions and compared with the analyzer run on the hypergraph and on both exported bipartite graphs.",
         "note": "Small-scope: 3-4 species, <=3 reactions. Linkage-class deficiencies compared as multisets.",
     },
+    "C20": {
+        "ready": True, "engine": "E1",
+        "technique": "bounded-exhaustive enumeration of small networks x all species subsets x all small markings x all small flows; exhaustive marking reachability as oracle",
+        "text": "Every labelled network with <=3 unit-coefficient reactions over 3 species (thorough: coefficients <=2, 4 species, flows up to 3): minimal siphons/traps (for every max_size, from hypergraph and bipartite input, and through PetriAnalyzer) against the definitions evaluated on every subset; enabled/fire on every marking in {0,1,2}^s; is_realizable for every flow in {0..2}^r against an exhaustive search over (marking, remaining firings), certificates replayed step by step.",
+        "note": "Small-scope bounds as stated; the implementation's own max_states bound is never reached on these sizes (oracle state count asserted <= 10^4), so 'unrealizable' answers are compared with a complete search. siphon_persistence_condition is not part of the property statement and is not judged.",
+    },
 }
